@@ -38,6 +38,14 @@ def unmut(t):
     return t
 
 
+def iter_base(t):
+    """the collection behind order-preserving iterator adaptors"""
+    t = unmut(t)
+    while isinstance(t, tuple) and t and t[0] == "call" and t[1].endswith(("::into_iter", "::iter", "::iter_mut", "::by_ref")) and t[2]:
+        t = unmut(t[2][0])
+    return t
+
+
 def is_call_to(t, pred):
     return isinstance(t, tuple) and t and t[0] == "call" and pred(t[1])
 
@@ -96,7 +104,7 @@ def r_addr_open(ctx):
                             ent = atom[1]
                     ok_len = ent is not None and ln == ("f", ent, "length")
                     ok_id = ent is not None and ent[0] == "proj" and ent[2] == 1 and tid == ("proj", ent[1], 0) and ent[1][0] == "elem"
-                    src_ok = ent is not None and ent[0] == "proj" and ent[1][0] == "elem" and is_call_to(ent[1][1], lambda s: "read_directories" in s)
+                    src_ok = ent is not None and ent[0] == "proj" and ent[1][0] == "elem" and is_call_to(iter_base(ent[1][1]), lambda s: "read_directories" in s)
                     obs.append(Ob("R-ADDR", fn, "open: offset = tile_data_offset + entry.offset", ok_base and ent is not None,
                                   "registered offset = %s (must be 1·header.tile_data_offset + 1·entry.offset)" % aff_str(a), e.loc(), {"offset": aff_str(a)}))
                     obs.append(Ob("R-ADDR", fn, "open: length and id from the same entry", ok_len and ok_id and src_ok,
